@@ -16,10 +16,10 @@ func init() {
 		Doc: "for each fork's ProcessBlock and ProcessEpoch, every path to a success return passes through exactly the spec's sub-transitions for that fork, in that fork's variant (resolved callee), with no foreign stage; stages that do not commute in this code base run in the spec's order (dependency table in DESIGN.md §9). A stage called from an unexported helper counts at the helper's call site, on every path only if the helper runs it on every one of its own success paths",
 		Run: rulePipeStages})
 	register(&Rule{Name: "slots.order", Floor: 8,
-		Doc: "ProcessSlots: ProcessSlot, then ProcessEpoch iff at an epoch end, then SetSlot, then RotateEpochs iff at an epoch end, then UpgradeMaybe, each on every path of a round (in every frame when the round, or part of it, lives in a helper) and the counter of the loop test moving up by exactly one per round; the target-slot guard precedes the loop; PostSlotTransition: signature check before ProcessBlock (under validateResult) and state-root comparison after it with != leading to an error",
+		Doc: "ProcessSlots: ProcessSlot, then ProcessEpoch iff at an epoch end, then SetSlot, then RotateEpochs iff at an epoch end, then UpgradeMaybe, each once on every path of a round (in every frame when the round, or part of it, lives in a helper; one call in each branch of an if/else is one call per path) and the counter of the loop test moving up by exactly one per round; the target-slot guard precedes the loop; PostSlotTransition: signature check before ProcessBlock (under validateResult) and state-root comparison after it with != leading to an error",
 		Run: ruleSlotsOrder})
 	register(&Rule{Name: "engine.verdict", Floor: 12,
-		Doc: "VerifyAndNotifyNewPayload maps every engine answer (err => (false, err), !ok => (false, nil)) in the order block hash, versioned hashes, notify; ProcessExecutionPayload stores the payload header only after the engine verdict `valid` and returns an error for err and for !valid; the request carries the block's payload, the versioned hashes of its commitments in order and the parent root of the latest block header",
+		Doc: "VerifyAndNotifyNewPayload consults the engine in the order block hash, versioned hashes, notify; decided on the control-flow graph: with an engine error in hand every path returns it, with an answer taken to be `false` every path returns false and none reaches the next engine query; ProcessExecutionPayload: with the engine's error in hand every path returns it, with the verdict taken to be `invalid` every path returns an error and none reaches the store of the payload header, which comes after the consultation; the request carries the block's payload, the versioned hashes of its commitments in order and the parent root of the latest block header",
 		Run: ruleEngineVerdict})
 	register(&Rule{Name: "limits.first", Floor: 30,
 		Doc: "each fork's CheckLimits bounds every list-typed body field by that field's own SSZ limit (the limit its Deserialize enforces), with the spec-mandated exception for blob commitments, and ProcessBlock calls it before the first operation stage; the (count, limit) pairs are collected from direct comparisons, from calls of an unexported check(what, count, limit) helper and from the rows of a local table walked by a loop",
